@@ -11,6 +11,7 @@ import Rl2tp.Proofs.RevealTotal
 import Rl2tp.Proofs.Image
 import Rl2tp.Spec.Md5
 import Rl2tp.Proofs.InPlace
+import Rl2tp.Proofs.GenSizes
 namespace Rl2tp.C12
 open Spec.Hide
 
@@ -127,5 +128,8 @@ example : hide toyHash (.hostName [1, 2, 3]) [9] 7 (List.replicate 12 0xEE) (Lis
 theorem hide_inplace_eq (hmd5 : ∀ x, (md5 x).length = 16) (a : AVP) (secret : Bytes) (rv : UInt32) (lp ap : Bytes)
     (hap : ap.length = 16) : hideIP md5 a secret rv lp ap = hide md5 a secret rv lp ap :=
   hideIP_eq md5 hmd5 a secret rv lp ap hap
+
+/-- the source's `CRYPTO_CHUNK_SIZE` is the 16 of the construction (re-read by bin/gentables on every run) -/
+theorem source_chunk_size : GenSizes.cc "CRYPTO_CHUNK_SIZE" = 16 := GenSizes.codec_constants_pinned.1
 
 end Rl2tp.C12
